@@ -24,7 +24,7 @@ func init() {
 		[]string{"ECDH is commutative; SHA-256/ChaCha20-Poly1305 are secure; a MAC over a transcript that includes the unmasked ephemeral fails unless both sides used the same passphrase"},
 		runC03)
 	register("C04",
-		"SYM-1..4 (as C03): mixHash, EncryptAndHash, DecryptAndHash, mixKey and InitializeSymmetric have the Noise shape. HSK-BIND: every buffer filled from the handshake reader is, on every path to a successful return, fed (directly, through ParsePubKey/ekeUnmask/a stored key, or as ciphertext) into mixHash or DecryptAndHash, and every value written to the act buffer is an EncryptAndHash result or shares its origin with a dominating mixHash argument - so any modified handshake byte changes the transcript and fails a MAC. The cleartext version byte is the exception (known finding: it is bound nowhere, a MITM can give the two sides different versions). HSK-VER: the relay-controlled version is used, besides comparisons and error messages, only under min <= version <= max (acts 1,2) with the store to h.version additionally under 'initiator', or under version == h.version (act 3); an unknown version ends in an error; for the two-act KK pattern (no re-check by the responder) the minimum and maximum version handed to the handshake state are forced to >= 2 on every path. TRUNC: every narrowing conversion of the auth-payload length is dominated by a bound that makes it exact, the v0 bound is the fixed payload size minus the length prefix, and the v0 reader fills the announced length with io.ReadFull. PUBLISH: SetRemote is called iff version >= HandshakeVersion2 and SetAuthData iff initiator, both after split, with the handshake state's remoteStatic / receivedPayload, both error-checked. Not decided: 'every single-bit flip aborts' (cryptographic); complementary keys (KEYSEP, C02).",
+		"SYM-1..4 (as C03): mixHash, EncryptAndHash, DecryptAndHash, mixKey and InitializeSymmetric have the Noise shape. HSK-BIND: every buffer filled from the handshake reader is, on every path to a successful return, fed (directly, through ParsePubKey/ekeUnmask/a stored key, or as ciphertext) into mixHash or DecryptAndHash, and every value written to the act buffer is an EncryptAndHash result or shares its origin with a dominating mixHash argument - so any modified handshake byte changes the transcript and fails a MAC. The cleartext version byte is the exception (known finding: it is bound nowhere, a MITM can give the two sides different versions). HSK-VER: the relay-controlled version is used, besides comparisons and error messages, only under min <= version <= max (acts 1,2) with the store to h.version additionally under 'initiator', or under version == h.version (act 3); an unknown version ends in an error; for the two-act KK pattern (no re-check by the responder) the minimum and maximum version handed to the handshake state are forced to >= 2 on every path. TRUNC: every narrowing conversion of the auth-payload length is dominated by a bound that makes it exact, the v0 bound is the fixed payload size minus the length prefix, and the v0 reader fills the announced length with io.ReadFull. PUBLISH: SetRemote is called iff version >= HandshakeVersion2 (with nothing that can fail between split and that call) and SetAuthData iff initiator, both after split, with the handshake state's remoteStatic / receivedPayload, both error-checked. Not decided: 'every single-bit flip aborts' (cryptographic); complementary keys (KEYSEP, C02).",
 		[]string{"SHA-256 is collision resistant; the AEAD authenticates its associated data (the transcript hash)"},
 		runC04)
 }
@@ -1272,7 +1272,20 @@ func runC04(c *Checker) {
 						continue // loop exit
 					}
 					if bo, ok := f.Cond.(*ssa.BinOp); ok && isNilConst(bo.Y) {
-						continue // earlier error checks
+						// earlier error checks are fine, except: nothing that can fail may stand between the end
+						// of the wire handshake (split) and SetRemote - the peer has already moved to the
+						// key-derived rendezvous at that point, so this side must store the key unconditionally
+						if method == "SetRemote" {
+							if ci, ok := bo.X.(ssa.Instruction); ok && instrDominates(sp[0], ci) {
+								extra++
+							}
+							if ex, ok := bo.X.(*ssa.Extract); ok {
+								if ci, ok := ex.Tuple.(ssa.Instruction); ok && instrDominates(sp[0], ci) {
+									extra++
+								}
+							}
+						}
+						continue
 					}
 					extra++
 				}
@@ -1295,9 +1308,10 @@ func runC04(c *Checker) {
 		}
 		return (bo.Op == token.GEQ && f.Val && k == v2) || (bo.Op == token.LSS && !f.Val && k == v2) || (bo.Op == token.GTR && f.Val && k == v2-1)
 	}, "SetRemote(remoteStatic) iff version >= HandshakeVersion2, after split, error checked")
+	rulePublishOrder(c, "PUBLISH")
 	pub("SetAuthData", fRP, func(f Fact) bool { return f.Val && isLoadOfField(f.Cond, fInit) },
 		"SetAuthData(receivedPayload) iff initiator, after split, error checked")
-	c.floor("PUBLISH", 2)
+	c.floor("PUBLISH", 3)
 }
 
 // ruleHSKVER checks every use of the version byte read from the wire.
@@ -1586,4 +1600,59 @@ func isRemoteStaticParam(p *ssa.Parameter) bool {
 		}
 	}
 	return n == 1
+}
+
+// rulePublishOrder: after split() no return is reachable before SetRemote on the version >= 2
+// paths (shared by C04 PUBLISH and C11/C17 SIDFRESH).
+func rulePublishOrder(c *Checker, rule string) {
+	w := c.w
+	dh := mboxFunc(c, "(*mailbox.Machine).DoHandshake")
+	split := mboxFunc(c, "(*mailbox.Machine).split")
+	fVer := w.Field("mailbox.handshakeState.version")
+	hv2 := w.Const("mailbox.HandshakeVersion2")
+	if dh == nil || split == nil || fVer == nil || hv2 == nil {
+		c.anchorFail("DoHandshake/split/handshakeState.version/HandshakeVersion2")
+		return
+	}
+	v2, _ := constant.Int64Val(constant.ToInt(hv2.Val()))
+	sp := findCalls(dh, func(ci ssa.CallInstruction) bool { return ci.Common().StaticCallee() == split })
+	// once the wire handshake is complete (split), no return is reachable before SetRemote on the
+	// version >= 2 paths: the peer has moved to the key-derived rendezvous, this side must follow
+	if len(sp) == 1 {
+		setRemote := findCalls(dh, func(ci ssa.CallInstruction) bool {
+			return ci.Common().IsInvoke() && ci.Common().Method.Name() == "SetRemote"
+		})
+		isVer := func(v ssa.Value) bool { return isLoadOfField(v, fVer) }
+		isV2 := func(v ssa.Value) bool { k, ok := intConst(v); return ok && k == v2 }
+		bad := ""
+		seen := map[*ssa.BasicBlock]bool{}
+		var walk func(b *ssa.BasicBlock, from int)
+		walk = func(b *ssa.BasicBlock, from int) {
+			for i := from; i < len(b.Instrs) && bad == ""; i++ {
+				in := b.Instrs[i]
+				for _, sr := range setRemote {
+					if in == sr {
+						return
+					}
+				}
+				if r, ok := in.(*ssa.Return); ok {
+					bad = w.pos(instrPos(r))
+					return
+				}
+			}
+			for _, sct := range b.Succs {
+				if seen[sct] || !edgeFeasible(b, sct) || bad != "" {
+					continue
+				}
+				if f, ok := edgeFact(b, sct); ok && factRel(f, isVer, isV2) == "<" {
+					continue // the version < 2 leg publishes nothing
+				}
+				seen[sct] = true
+				walk(sct, 0)
+			}
+		}
+		walk(sp[0].Block(), instrIndex(sp[0])+1)
+		c.decide(bad == "" && len(setRemote) == 1, rule, "DoHandshake|nothing can fail between split and SetRemote", dh.Pos(), "for version >= 2 every path from split reaches SetRemote before any return",
+			"DoHandshake can return at "+bad+" after the wire handshake completed but before SetRemote: the peer has stored our key and moved to the key-derived rendezvous, this side stays on the passphrase")
+	}
 }
